@@ -387,7 +387,9 @@ var c17KeyTypes = []keyType{
 	intKT("int8", "FInt8", true), intKT("int16", "FInt16", true), intKT("int32", "FInt32", true), intKT("int64", "FInt64", true),
 	intKT("uint8", "FUInt8", false), intKT("uint16", "FUInt16", false), intKT("uint32", "FUInt32", false), intKT("uint64", "FUInt64", false),
 	{yang: "string",
-		mk:   func(r *gen.Rng) sval { return sval{kind: "str", s: randText(r, []string{"a", "b", "B", "z", "0", "-", "_", "ab"}, 4) + "k"} },
+		mk: func(r *gen.Rng) sval {
+			return sval{kind: "str", s: randText(r, []string{"a", "b", "B", "z", "0", "-", "_", "ab"}, 4) + "k"}
+		},
 		goV:  func(v sval) interface{} { return v.s },
 		path: func(v sval) string { return v.s }},
 }
